@@ -85,6 +85,7 @@ type Val struct {
 	Origin *Ptr // lvalue a value-form slice was loaded from
 	OriginTerm string
 	Fn     *ssa.Function
+	St     *State // state a collection reference was evaluated in (spec expressions)
 }
 
 func (v *Val) String() string {
@@ -137,6 +138,7 @@ type State struct {
 	objs   map[int]string    // object id -> current content term
 	st     map[string]string // abstract state variable -> current term
 	pc     []string          // assumptions, in order
+	pcb    []bool            // parallel to pc: true for branch / path-restricting conditions
 	decls  []string          // local declarations, in order
 	active map[*ssa.BasicBlock]*loopEntry
 	trace  []string
@@ -144,6 +146,7 @@ type State struct {
 	depth  int
 	dead   bool
 	ghost  map[string]string
+	names  map[string]string // term -> constant bound to it on this path
 }
 
 type loopEntry struct {
@@ -152,9 +155,12 @@ type loopEntry struct {
 
 func (s *State) clone() *State {
 	n := &State{objs: make(map[int]string, len(s.objs)), st: make(map[string]string, len(s.st)),
-		pc: s.pc[:len(s.pc):len(s.pc)], decls: s.decls[:len(s.decls):len(s.decls)],
+		pc: s.pc[:len(s.pc):len(s.pc)], pcb: s.pcb[:len(s.pcb):len(s.pcb)], decls: s.decls[:len(s.decls):len(s.decls)],
 		active: make(map[*ssa.BasicBlock]*loopEntry, len(s.active)), trace: s.trace[:len(s.trace):len(s.trace)],
-		alias: make(map[int]bool, len(s.alias)), depth: s.depth, ghost: make(map[string]string, len(s.ghost))}
+		alias: make(map[int]bool, len(s.alias)), depth: s.depth, ghost: make(map[string]string, len(s.ghost)), names: make(map[string]string, len(s.names))}
+	for k, v := range s.names {
+		n.names[k] = v
+	}
 	for k, v := range s.objs {
 		n.objs[k] = v
 	}
@@ -178,6 +184,15 @@ func (s *State) assume(t string) {
 		return
 	}
 	s.pc = append(s.pc, t)
+	s.pcb = append(s.pcb, false)
+}
+
+func (s *State) assumeBranch(t string) {
+	if t == "true" || t == "" {
+		return
+	}
+	s.pc = append(s.pc, t)
+	s.pcb = append(s.pcb, true)
 }
 
 func (s *State) declare(name, sort string) {
